@@ -108,6 +108,8 @@ func verifyBlob(out *core.Outcome, w *world.World, blob []byte, aaChal []byte, w
 			}
 			pan = recover()
 		}()
+		term.ArmStepBound(20000000)
+		defer term.DisarmStepBound()
 		v := verifier.NewVerifier(w.Pool)
 		if aaChal != nil {
 			if _, e := v.WithAAChallenge(aaChal); e != nil {
@@ -118,6 +120,10 @@ func verifyBlob(out *core.Outcome, w *world.World, blob []byte, aaChal []byte, w
 		d, err = v.Verify(blob)
 	}()
 	runtime.ReadMemStats(&m1)
+	if pan == term.StepBoundExceeded {
+		out.Violate("C12", "no-termination", "verify/"+what, "verifier.Verify does not return within 20 000 000 logging steps on a stored blob (%s)", what)
+		return nil, fmt.Errorf("no termination"), true
+	}
 	if pan != nil {
 		out.Violate("C12", "panic-in-verify", what, "verifier.Verify panicked on a stored blob (%s): %v", what, pan)
 		return nil, fmt.Errorf("panic: %v", pan), true
@@ -459,6 +465,7 @@ func (StoreVerifyEngine) Run(prop string, ci any) *core.Outcome {
 				e.CA.TermPubKey = chip.EncodePoint(cv, x, y)
 			}, false},
 			tamper{"ca.termPubKey:other-valid-point", "CA", func(e *store.Evidence) { e.CA.TermPubKey = otherPoint(c.Spec.CA.CurveID, e.CA.TermPubKey, 7) }, false},
+			tamper{"ca.termPubKey:negated", "CA", func(e *store.Evidence) { e.CA.TermPubKey = negPoint(c.Spec.CA.CurveID, e.CA.TermPubKey) }, false},
 			tamper{"ca:dropped", "CA", func(e *store.Evidence) { e.CA = nil }, false})
 	}
 	if ev.PaceCam != nil && live.CAM {
@@ -479,6 +486,12 @@ func (StoreVerifyEngine) Run(prop string, ci any) *core.Outcome {
 			tamper{"cam.chipKaPub:other-valid-point", "CAM", func(e *store.Evidence) { e.PaceCam.ChipKaPub = otherPoint(pid, e.PaceCam.ChipKaPub, 9) }, false},
 			tamper{"cam.termMapPub:other-valid-point", "CAM", func(e *store.Evidence) { e.PaceCam.TermMapPub = otherPoint(pid, e.PaceCam.TermMapPub, 11) }, false},
 			tamper{"cam.termKaPub:other-valid-point", "CAM", func(e *store.Evidence) { e.PaceCam.TermKaPub = otherPoint(pid, e.PaceCam.TermKaPub, 13) }, false},
+			tamper{"cam.chipMapPub:negated", "CAM", func(e *store.Evidence) { e.PaceCam.ChipMapPub = negPoint(pid, e.PaceCam.ChipMapPub) }, false},
+			tamper{"cam.chipKaPub:negated", "CAM", func(e *store.Evidence) { e.PaceCam.ChipKaPub = negPoint(pid, e.PaceCam.ChipKaPub) }, false},
+			tamper{"cam.termMapPub:negated", "CAM", func(e *store.Evidence) { e.PaceCam.TermMapPub = negPoint(pid, e.PaceCam.TermMapPub) }, false},
+			tamper{"cam.termKaPub:negated", "CAM", func(e *store.Evidence) { e.PaceCam.TermKaPub = negPoint(pid, e.PaceCam.TermKaPub) }, false},
+			tamper{"cam.parameterId:plus-256", "CAM", func(e *store.Evidence) { e.PaceCam.ParameterId = pid + 256 }, false},
+			tamper{"cam.parameterId:plus-65536", "CAM", func(e *store.Evidence) { e.PaceCam.ParameterId = pid + 65536 }, false},
 			tamper{"cam.parameterId:other-curve", "CAM", func(e *store.Evidence) {
 				e.PaceCam.ParameterId = 8 + (pid-8+1)%11
 			}, false},
@@ -542,6 +555,30 @@ func (StoreVerifyEngine) Run(prop string, ci any) *core.Outcome {
 		}
 		if bad {
 			out.Violate("C14", "tampered-evidence-accepted", t.name, "evidence field rewritten (%s) in the store, envelope checksums recomputed, and the %s verdict is still successful", t.name, t.mech)
+		}
+	}
+	// the same kind of change made through the library's own exporter (result object edited, then ToCbor): integer fields
+	// must not be narrowed on the way (13+256 must not come back as 13)
+	if pc := r.Doc.Session.PaceCamResult; pc != nil && pc.Evidence != nil && live.CAM {
+		orig := pc.Evidence.ParameterId
+		for _, dlt := range []int{256, 512, 65536, -256, 1 << 32, -(1 << 32)} {
+			pc.Evidence.ParameterId = orig + dlt
+			b2, xerr := r.Doc.ToCbor()
+			pc.Evidence.ParameterId = orig
+			if xerr != nil {
+				out.Probe("export_refuses_out_of_range_parameter_id")
+				continue
+			}
+			out.Fault("rewrite_CAM_via_exporter")
+			name := fmt.Sprintf("cam.parameterId:%+d(exported by the library)", dlt)
+			d, e, pan := verifyBlob(out, r.W, b2, nil, "evidence "+name)
+			if pan {
+				out.Violate("C14", "panic-on-tampered-evidence", name, "verifier.Verify panicked on tampered evidence %s", name)
+				continue
+			}
+			if e == nil && d != nil && verdictsOf(d).CAM {
+				out.Violate("C14", "tampered-evidence-accepted", name, "parameter id changed from %d to %d in the result object, exported with ToCbor, and the PACE-CAM verdict is still successful", orig, orig+dlt)
+			}
 		}
 	}
 	// offline nonce binding (C07): with a caller-supplied challenge, verification hard-fails whenever the recorded nonce
@@ -799,7 +836,9 @@ func (StoreCorruptEngine) Gen(prop, tier string, seed uint64, yield func(c any) 
 		// small certificates keep the blob (and the enumeration) small
 		s.CSCA, s.CSCAScheme = world.KeySpec{Kind: "ec", CurveID: 12}, world.SchemeSpec{Kind: "ecdsa", Hash: "SHA256"}
 		s.DS, s.DSScheme = world.KeySpec{Kind: "ec", CurveID: core.Pick(rng, []int{10, 12, 13})}, world.SchemeSpec{Kind: "ecdsa", Hash: "SHA256"}
-		s.Indefinite = false
+		// security objects in the BER form met in the field: indefinite-length SignedData (a wrapper with four length
+		// octets cannot be read live: ReadFile takes a 4-byte header, and C13 quantifies over 1-3 length octets)
+		s.Indefinite = i%3 == 1
 		if s.AA != nil && s.AA.Kind == "rsa" {
 			s.AA.Bits = 1024
 		}
@@ -1229,4 +1268,18 @@ func cardAccessOutsideDG14(ca, dg14 []byte) bool {
 		}
 	}
 	return false
+}
+
+// negPoint returns the uncompressed encoding of -P for the uncompressed point p on the curve of the parameter id.
+func negPoint(paramID int, p []byte) []byte {
+	cv := chip.CurveByParamID(paramID)
+	if cv == nil || len(p) < 3 || p[0] != 0x04 {
+		return flipLast(p)
+	}
+	l := (len(p) - 1) / 2
+	y := new(big.Int).SetBytes(p[1+l:])
+	y.Sub(cv.Params().P, y)
+	o := bytes.Clone(p)
+	y.FillBytes(o[1+l:])
+	return o
 }
